@@ -27,7 +27,7 @@ ANCHORS = ['annotations:Condition.__and__', 'annotations:Condition.__or__', 'ann
            'annotations:shape', 'annotations:broadcastable', 'annotations:Condition._converter',
            'converters:ConditionalConverter.try_convert', 'converters:ConditionalConverter.collect_errors',
            'converters:ConditionalConverter.into_data', 'convert:_annotated_converter']
-MIN_COUNTERS = {'quick': {'checked': 40000, 'accepted': 8000, 'rejected_by_condition': 8000, 'rejected_by_inner': 2000,
+MIN_COUNTERS = {'quick': {'equal_value_sequence_calls': 2000, 'checked': 40000, 'accepted': 8000, 'rejected_by_condition': 8000, 'rejected_by_inner': 2000,
                           'predicate_raised': 2000, 'boundary_values': 5000, 'serialise_checked': 8000, 'multi_condition_annotations': 3000, 'same_name_condition_annotations': 300, 'mutated_between_calls_checked': 200}}
 
 E = env.m_errors
@@ -362,6 +362,57 @@ def run(ctx):
                            'third_call': third.brief()[:150], 'expected': f"{want[0]} then {want[1]} (twice)"}, mech='condition-verdict-remembered-for-an-object')
 
     drive.for_each_case(ctx, 'mutated-between', 40, body_mutated_between, gen=lambda c, r: Ty('int'))
+
+    # one conditioned type used again and again with EQUAL values of different kinds (2 / 2.0, True / 1, 5 / 5+0j) and with a predicate
+    # whose answer follows outside state: every call is judged by what the predicate says about THIS value NOW, and a cause is carried
+    # exactly when the predicate raised on this call (round 11: verdicts or exceptions remembered per value)
+    def body_equal_values(i, rng, ty, T):
+        from .. import special
+        for name, TT, steps in special.equal_value_sequences(rng):
+            place = rng.choice(('top', 'field', 'list', 'dict-value'))
+            if place == 'field':
+                H = type(f"EV{next(_serial)}", (env.PaneBase,), {'__annotations__': {'f': TT}, '__module__': __name__})
+                call, get = (lambda v: H.from_data({'f': v})), (lambda r: r.f)
+            elif place == 'list':
+                LT = t.List[TT]
+                call, get = (lambda v: env.from_data([v], LT)), (lambda r: r[0])
+            elif place == 'dict-value':
+                DT = t.Dict[str, TT]
+                call, get = (lambda v: env.from_data({'k': v}, DT)), (lambda r: r['k'])
+            else:
+                call, get = (lambda v: env.from_data(v, TT)), (lambda r: r)
+            history = []
+            for step in steps:
+                if step[0] == 'do':
+                    step[1]()
+                    history.append('state changed')
+                    continue
+                _, v, expected = step
+                o = observe(call, v)
+                ctx.count('equal_value_sequence_calls')
+                ctx.case(('equal-values', name, place, expected, o.kind), nontrivial=True)
+                wit = {'condition': name, 'placed': place, 'earlier_calls_on_this_type': history[-8:], 'value': repr(v), 'predicate_says': expected, 'pane': o.brief()[:250]}
+                history.append(repr(v))
+                if o.kind == 'escape':
+                    ctx.violation('condition-semantics', 'equal-values', i, wit, mech=f"escape-after-equal-value:{type(o.exc).__name__}")
+                    return
+                if (o.kind == 'value') != (expected == 'accept'):
+                    ctx.violation('accepts-iff-inner-and-predicate', 'equal-values', i, wit, mech='verdict-of-an-earlier-equal-value')
+                    return
+                if o.kind == 'value':
+                    got = get(o.val)
+                    if type(got) is not type(v) or repr(got) != repr(v):
+                        ctx.violation('accepted-value-unchanged', 'equal-values', i, {**wit, 'returned': repr(got)}, mech='value-of-an-earlier-equal-value')
+                        return
+                elif place == 'top':
+                    node = o.exc.tree
+                    has_cause = isinstance(node, E.ConditionFailedError) and node.cause is not None
+                    if has_cause != (expected == 'raises'):
+                        ctx.violation('raising-predicate-carries-cause', 'equal-values', i, {**wit, 'tree': short(node, 300), 'cause_carried': has_cause},
+                                      mech='cause-of-an-earlier-call' if has_cause else 'cause-not-carried')
+                        return
+
+    drive.for_each_case(ctx, 'equal-values', 30, body_equal_values, gen=lambda c, r: Ty('int'))
 
     # the aliases shipped in pane.types
     def body_alias(i, rng, ty, T):
